@@ -54,7 +54,8 @@ func TestVerifC01Locations(t *testing.T) {
 	sort.Strings(names)
 	os.MkdirAll(filepath.Join(scratch, "real/target"), 0o755)
 	os.Symlink(filepath.Join(scratch, "real"), filepath.Join(scratch, "link"))
-	dirs := []string{"a", "deeper/b/c/d/e", "with space/x", "link/target", "UPPER/a"}
+	// "ws/inner": an ancestor directory holds a go.work of an UNRELATED workspace
+	dirs := []string{"a", "deeper/b/c/d/e", "with space/x", "link/target", "UPPER/a", "ws/inner"}
 	pols := []struct {
 		n string
 		p ir.LiteralPolicy
@@ -74,6 +75,13 @@ func TestVerifC01Locations(t *testing.T) {
 						dir = filepath.Join(scratch, "link/target", fmt.Sprintf("loc-%s-%v", fn, mod))
 					}
 					os.MkdirAll(dir, 0o755)
+					if sub == "ws/inner" {
+						ws := filepath.Dir(dir)
+						os.MkdirAll(filepath.Join(ws, "other"), 0o755)
+						os.WriteFile(filepath.Join(ws, "other", "go.mod"), []byte("module example.com/other\n\ngo 1.21\n"), 0o644)
+						os.WriteFile(filepath.Join(ws, "other", "o.go"), []byte("package other\n"), 0o644)
+						os.WriteFile(filepath.Join(ws, "go.work"), []byte("go 1.21\n\nuse ./other\n"), 0o644)
+					}
 					if mod {
 						os.WriteFile(filepath.Join(dir, "go.mod"), []byte("module example.com/sample\n\ngo 1.21\n"), 0o644)
 					}
@@ -94,7 +102,7 @@ func TestVerifC01Locations(t *testing.T) {
 					r.Eval()
 					r.Nontrivial(key)
 					r.Count("results_compared", int64(len(res)))
-					for _, leak := range []string{scratch, "with space", "deeper/b", "UPPER"} {
+					for _, leak := range []string{scratch, "with space", "deeper/b", "UPPER", "ws/inner"} {
 						if i := strings.Index(got, leak); i >= 0 {
 							lo, hi := i-80, i+120
 							if lo < 0 {
